@@ -206,9 +206,15 @@ def encode_triaxys(case, outdir):
     paths = []
     nf = len(case["freq"])
     nf_all = nf
-    for it, t in enumerate(case["times"]):
+    case0 = case
+    for it, t in enumerate(case0["times"]):
+        case = case0
         # later files may resolve fewer frequencies than the first one (same initial frequency and spacing)
         nf = (case.get("nf_per_time") or [nf_all] * len(case["times"]))[it]
+        # ... or start at a later frequency: the same number of frequencies and the same spacing, initial frequency k spacings higher
+        kshift = (case.get("shift_per_time") or [0] * len(case["times"]))[it]
+        fstep = float(case["df"])
+        case = dict(case, freq=[round(f + kshift * fstep, 6) for f in case["freq"]], f0=round(float(case["f0"]) + kshift * fstep, 6)) if kshift else case
         local = _py(t) + _dt.timedelta(hours=case["toff"])
         zone = "UTC" if case["toff"] == 0 else "LOCAL"
         rows = case["E"][it]
